@@ -105,10 +105,13 @@ def eval_variant(v: dict, props=None) -> dict:
         for prop in props or v["props"]:
             ctx = Ctx(prop, "selftest", 0)
             try:
-                eng = Engine(tmp)
-                for m, line, what in eng.g0():
-                    ctx.error(f"G0 {m}:{line} {what}")
-                importlib.import_module(f"sa.rules.{prop}").run(eng, ctx)
+                from .main import analysis_budget
+
+                with analysis_budget(int(os.environ.get("VERIF_ANALYSIS_BUDGET", "900")), f"{prop} on variant {v['id']}"):
+                    eng = Engine(tmp)
+                    for m, line, what in eng.g0():
+                        ctx.error(f"G0 {m}:{line} {what}")
+                    importlib.import_module(f"sa.rules.{prop}").run(eng, ctx)
             except AnalysisError as err:
                 ctx.error(str(err))
             except Exception as err:
